@@ -356,8 +356,12 @@ def r9_host_field_name_any_case(ctx):
         return
     def recognisers(body0):
         sens, insens = [], []
+        # the function, its closures, and the helpers of the same module it calls (a `find_host_header()` extracted from it)
+        reach = {k_ for k_ in ctx.cg.reachable_from([ctx.cg.key_of(body0)]) if k_.startswith(HP) or k_ == body0.name}
         for key_, body in ctx.P.bodies.items():
-            if key_ in ctx.P.inlined_away or not (key_ == body0.name or key_.startswith(body0.name + "::")):
+            if key_ in ctx.P.inlined_away:
+                continue
+            if not (key_ == body0.name or key_.startswith(body0.name + "::") or key_ in reach or key_.split("::{closure")[0] in reach):
                 continue
             _scan(body, sens, insens)
         return sens, insens
